@@ -65,6 +65,11 @@ var mgWants = []mgWant{
 	{"internal/trigger/file/file_parser.go", "Stage", "validateStagedStage", "", "file_validateStagedStage"},
 	{"internal/trigger/file/file_parser.go", "Stage", "validateGaussianStage", "", "file_validateGaussianStage"},
 	{"internal/trigger/file/file_parser.go", "Stage", "validateUsersStage", "", "file_validateUsersStage"},
+	{"pkg/f1/f1_scenarios.go", "", "CombineScenarios", "return", "combine_setup"},
+	{"pkg/f1/f1_scenarios.go", "", "CombineScenarios", "return/return", "combine_iter"},
+	{"internal/trigger/file/file_parser.go", "", "ParseConfigFile", "", "file_ParseConfigFile"},
+	{"internal/trigger/file/stages_worker.go", "", "newStagesWorker", "return", "file_stagesWorker"},
+	{"internal/trigger/file/file_rate.go", "", "newDryRun", "return", "file_dryRun"},
 }
 
 var timeConsts = map[string]string{"Nanosecond": "1", "Microsecond": "1000", "Millisecond": "1000000",
@@ -87,6 +92,113 @@ type mgCtx struct {
 	atomics map[string]bool   // struct field names declared with a sync/atomic type in this package
 	rename  map[string]string // receiver / parameters → recv, arg0, …
 	alias   map[string]string // x := a.b.c (never reassigned)  →  x stands for a.b.c
+	opaque  map[string]bool   // locals holding the result of an external call: their fields are projections (`.field`)
+	inLoop  int               // > 0 inside a loop body: niladic methods are read again every time (oracles)
+	loopN   *int              // numbering of the hidden index variables of range loops
+	body    ast.Node          // the function being translated
+}
+
+// the identifier a selector chain is rooted in (nil if it is not one)
+func rootIdent(e ast.Expr) *ast.Ident {
+	switch x := e.(type) {
+	case *ast.Ident:
+		return x
+	case *ast.SelectorExpr:
+		return rootIdent(x.X)
+	case *ast.ParenExpr:
+		return rootIdent(x.X)
+	case *ast.StarExpr:
+		return rootIdent(x.X)
+	}
+	return nil
+}
+
+// the variables of range loops: calling one is a call of a function *value* taken from a slice (a dynamic call, logged
+// with the function as first argument). Calls of function-typed parameters stay oracles named after the parameter.
+var dynVars = map[string]bool{}
+
+// locals that hold a copy of a slice element (`cur := xs[i]`): their fields are copied one by one, and a call of a
+// function-typed field (`cur.Rate(t)`) is a dynamic call
+var structLocals = map[string]bool{}
+
+func isFuncValue(e ast.Expr) bool {
+	if sel, ok := e.(*ast.SelectorExpr); ok {
+		if id, ok := sel.X.(*ast.Ident); ok && structLocals[id.Name] {
+			return true
+		}
+	}
+	id, ok := e.(*ast.Ident)
+	return ok && id.Obj != nil && id.Obj.Kind == ast.Var && dynVars[id.Name]
+}
+
+// the fields of the local `name` that the function reads
+func fieldsUsed(body ast.Node, name string) []string {
+	seen := map[string]bool{}
+	var out []string
+	ast.Inspect(body, func(n ast.Node) bool {
+		if sel, ok := n.(*ast.SelectorExpr); ok {
+			if id, ok := sel.X.(*ast.Ident); ok && id.Name == name && !seen[sel.Sel.Name] {
+				seen[sel.Sel.Name] = true
+				out = append(out, sel.Sel.Name)
+			}
+		}
+		return true
+	})
+	return out
+}
+
+// does e contain a call of a local function value?
+func dynCallIn(e ast.Expr) *ast.CallExpr {
+	var found *ast.CallExpr
+	ast.Inspect(e, func(n ast.Node) bool {
+		if call, ok := n.(*ast.CallExpr); ok && isFuncValue(call.Fun) && found == nil {
+			found = call
+		}
+		return true
+	})
+	return found
+}
+
+func (c *mgCtx) exprList(es []ast.Expr) string {
+	var parts []string
+	for _, e := range es {
+		parts = append(parts, c.expr(e))
+	}
+	return "[" + strings.Join(parts, ", ") + "]"
+}
+
+func leanStrList(xs []string) string {
+	var parts []string
+	for _, x := range xs {
+		parts = append(parts, leanStr(x))
+	}
+	return "[" + strings.Join(parts, ", ") + "]"
+}
+
+// `f(args)` for a local function value f: logged under "$dyn" with f as first argument; the oracle "$dyn.panics"
+// decides whether the callee panics
+func (c *mgCtx) dynCall(dsts []string, call *ast.CallExpr) string {
+	args := append([]ast.Expr{call.Fun}, call.Args...)
+	return "(.callS " + leanStrList(dsts) + " \"$dyn\" \"$dyn.panics\" " + c.exprList(args) + ")"
+}
+
+// the callee of a static call as (name, receiver-as-first-argument?)
+func (c *mgCtx) staticCallee(call *ast.CallExpr) (string, []ast.Expr, bool) {
+	switch f := call.Fun.(type) {
+	case *ast.Ident:
+		if isFuncValue(f) {
+			return "", nil, false
+		}
+		return f.Name, call.Args, true
+	case *ast.SelectorExpr:
+		if id, ok := f.X.(*ast.Ident); ok && id.Obj == nil && c.rename[id.Name] == "" && c.alias[id.Name] == "" {
+			return id.Name + "." + f.Sel.Name, call.Args, true // package function
+		}
+		if c.path(f.X) != "" {
+			return f.Sel.Name, append([]ast.Expr{f.X}, call.Args...), true // method: the receiver is the first argument
+		}
+	}
+	return "", nil, false
 }
 
 func (c *mgCtx) text(n ast.Node) string {
@@ -224,6 +336,9 @@ func (c *mgCtx) expr(e ast.Expr) string {
 				return "(.flit 3141592653589793 (-15))"
 			}
 		}
+		if r := rootIdent(x); r != nil && c.opaque[r.Name] {
+			return "(.field " + c.expr(x.X) + " " + leanStr(x.Sel.Name) + ")"
+		}
 		if p := c.path(x); p != "" {
 			return "(.var " + leanStr(p) + ")"
 		}
@@ -333,6 +448,8 @@ func (c *mgCtx) call(x *ast.CallExpr) string {
 			switch {
 			case len(x.Args) == 0 && builtin1[m]:
 				return "(.builtin1 " + leanStr(m) + " (.var " + leanStr(recv) + "))"
+			case len(x.Args) == 0 && c.inLoop > 0:
+				return "(.call0 " + leanStr(recv+"."+m) + ")" // read again on every iteration: an oracle
 			case len(x.Args) == 0:
 				return "(.var " + leanStr(recv+"."+m+"()") + ")" // a niladic method: a read of the environment
 			case len(x.Args) == 1 && builtin2[m]:
@@ -422,6 +539,12 @@ func (c *mgCtx) callStmt(call *ast.CallExpr, deferred bool) string {
 	// func() { … }() — a block with its own deferred calls
 	if fl, isLit := call.Fun.(*ast.FuncLit); isLit && len(call.Args) == 0 && !deferred {
 		return "(.scope " + c.block(fl.Body.List) + ")"
+	}
+	if isFuncValue(call.Fun) && !deferred {
+		return c.dynCall(nil, call)
+	}
+	if id, isId := call.Fun.(*ast.Ident); isId && len(call.Args) >= 2 && !deferred {
+		return "(.callS [] " + leanStr(id.Name) + " \"\" " + c.exprList(call.Args) + ")"
 	}
 	sel, ok := call.Fun.(*ast.SelectorExpr)
 	mk := func(w string) string {
@@ -521,14 +644,71 @@ func (c *mgCtx) stmt(s ast.Stmt) string {
 			}
 			return seq(parts)
 		}
+		if len(x.Lhs) >= 2 && len(x.Rhs) == 1 && (x.Tok == token.ASSIGN || x.Tok == token.DEFINE) {
+			// several results of one call
+			call, ok := x.Rhs[0].(*ast.CallExpr)
+			if !ok {
+				return c.unsupportedS(s)
+			}
+			var dsts []string
+			for _, l := range x.Lhs {
+				p := c.path(l)
+				if p == "" {
+					return c.unsupportedS(s)
+				}
+				dsts = append(dsts, p)
+			}
+			if isFuncValue(call.Fun) {
+				return c.dynCall(dsts, call)
+			}
+			if fn, args, ok := c.staticCallee(call); ok {
+				return "(.callS " + leanStrList(dsts) + " " + leanStr(fn) + " \"\" " + c.exprList(args) + ")"
+			}
+			return c.unsupportedS(s)
+		}
 		if len(x.Lhs) != 1 || len(x.Rhs) != 1 {
 			return c.unsupportedS(s)
+		}
+		if call, ok := x.Rhs[0].(*ast.CallExpr); ok && x.Tok != token.ADD_ASSIGN {
+			if id, ok := call.Fun.(*ast.Ident); ok && id.Name == "append" && id.Obj == nil && len(call.Args) == 2 {
+				// xs = append(xs, e)
+				arr := c.path(x.Lhs[0])
+				if arr == "" || arr != c.path(call.Args[0]) {
+					return c.unsupportedS(s)
+				}
+				if dc, ok := call.Args[1].(*ast.CallExpr); ok && isFuncValue(dc.Fun) {
+					return "(.seq " + c.dynCall([]string{"$elem"}, dc) + " (.append " + leanStr(arr) + " (.var \"$elem\")))"
+				}
+				if dynCallIn(call.Args[1]) != nil {
+					return c.unsupportedS(s)
+				}
+				return "(.append " + leanStr(arr) + " " + c.expr(call.Args[1]) + ")"
+			}
+			if isFuncValue(call.Fun) {
+				if p := c.path(x.Lhs[0]); p != "" {
+					return c.dynCall([]string{p}, call)
+				}
+				return c.unsupportedS(s)
+			}
 		}
 		switch x.Tok {
 		case token.ASSIGN, token.DEFINE:
 			if id, ok := x.Lhs[0].(*ast.Ident); ok && x.Tok == token.DEFINE {
 				if _, aliased := c.alias[id.Name]; aliased {
 					return ".skip"
+				}
+				if ix, isIdx := x.Rhs[0].(*ast.IndexExpr); isIdx && c.body != nil {
+					// cur := xs[i] for a slice of structs: a copy, field by field (those the function reads)
+					if arr := c.path(ix.X); arr != "" {
+						if fs := fieldsUsed(c.body, id.Name); len(fs) > 0 {
+							structLocals[id.Name] = true
+							parts := []string{"(.assign \"$idx\" " + c.expr(ix.Index) + ")"}
+							for _, f := range fs {
+								parts = append(parts, "(.assign "+leanStr(id.Name+"."+f)+" (.index "+leanStr(arr)+" (.var \"$idx\") "+leanStr(f)+"))")
+							}
+							return seq(parts)
+						}
+					}
 				}
 			}
 			if o := oracleIn(x.Rhs[0]); o != "" { // a clock read: its place among the effects is part of the meaning
@@ -572,6 +752,38 @@ func (c *mgCtx) stmt(s ast.Stmt) string {
 			return "(.while " + c.expr(x.Cond) + "\n  " + c.block(x.Body.List) + ")"
 		}
 		return c.unsupportedS(s)
+	case *ast.RangeStmt:
+		arr := c.path(x.X)
+		if arr == "" || (x.Tok != token.DEFINE && x.Key != nil) {
+			return c.unsupportedS(s)
+		}
+		k := strconv.Itoa(*c.loopN)
+		*c.loopN++
+		iv, nv := "$i"+k, "$n"+k
+		var body []string
+		if id, ok := x.Key.(*ast.Ident); ok && id.Name != "_" {
+			body = append(body, "(.assign "+leanStr(c.path(id))+" (.var "+leanStr(iv)+"))")
+		} else if x.Key != nil && !ok {
+			return c.unsupportedS(s)
+		}
+		if id, ok := x.Value.(*ast.Ident); ok && id.Name != "_" {
+			body = append(body, "(.assign "+leanStr(c.path(id))+" (.index "+leanStr(arr)+" (.var "+leanStr(iv)+") \"\"))")
+		} else if x.Value != nil && !ok {
+			return c.unsupportedS(s)
+		}
+		c.inLoop++
+		if id, ok := x.Value.(*ast.Ident); ok {
+			dynVars[id.Name] = true
+		}
+		body = append(body, c.block(x.Body.List))
+		if id, ok := x.Value.(*ast.Ident); ok {
+			delete(dynVars, id.Name)
+		}
+		c.inLoop--
+		body = append(body, "(.assign "+leanStr(iv)+" (.bin .add (.var "+leanStr(iv)+") (.int 1)))")
+		// the length is read once, before the first iteration
+		return seq([]string{"(.assign " + leanStr(nv) + " (.len " + leanStr(arr) + "))", "(.assign " + leanStr(iv) + " (.int 0))",
+			"(.while (.bin .lt (.var " + leanStr(iv) + ") (.var " + leanStr(nv) + "))\n  " + seq(body) + ")"})
 	case *ast.ReturnStmt:
 		switch len(x.Results) {
 		case 0:
@@ -596,6 +808,25 @@ func (c *mgCtx) stmt(s ast.Stmt) string {
 			}
 			return "(.ret1 " + c.expr(x.Results[0]) + ")"
 		case 2:
+			if u, ok := x.Results[0].(*ast.UnaryExpr); ok && u.Op == token.AND {
+				if cl, ok := u.X.(*ast.CompositeLit); ok && len(cl.Elts) > 0 {
+					// return &T{F: e, …}, x: the fields of the result, then return
+					var parts []string
+					for _, el := range cl.Elts {
+						kv, ok := el.(*ast.KeyValueExpr)
+						if !ok {
+							return c.unsupportedS(s)
+						}
+						k, ok := kv.Key.(*ast.Ident)
+						if !ok {
+							return c.unsupportedS(s)
+						}
+						parts = append(parts, "(.assign "+leanStr("$ret."+k.Name)+" "+c.expr(kv.Value)+")")
+					}
+					parts = append(parts, "(.ret2 .fresh "+c.expr(x.Results[1])+")")
+					return seq(parts)
+				}
+			}
 			return "(.ret2 " + c.expr(x.Results[0]) + " " + c.expr(x.Results[1]) + ")"
 		}
 		return c.unsupportedS(s)
@@ -697,7 +928,23 @@ func translateMiniGo(repo string) string {
 			fmt.Fprintf(&out, "def %s : Stmt := .unsupported %s\n\n", w.lean, leanStr("function not found"))
 			continue
 		}
-		c := &mgCtx{fset: fsets[w.file], atomics: atomCache[w.file], rename: map[string]string{}, alias: map[string]string{}}
+		loopN := 0
+		c := &mgCtx{fset: fsets[w.file], atomics: atomCache[w.file], rename: map[string]string{}, alias: map[string]string{},
+			opaque: map[string]bool{}, loopN: &loopN, body: fd}
+		structLocals = map[string]bool{}
+		// locals that receive the results of a call with several results
+		ast.Inspect(fd.Body, func(nd ast.Node) bool {
+			if as, ok := nd.(*ast.AssignStmt); ok && len(as.Lhs) >= 2 && len(as.Rhs) == 1 {
+				if _, isCall := as.Rhs[0].(*ast.CallExpr); isCall {
+					for _, l := range as.Lhs {
+						if id, ok := l.(*ast.Ident); ok && id.Name != "_" {
+							c.opaque[id.Name] = true
+						}
+					}
+				}
+			}
+			return true
+		})
 		if fd.Recv != nil && len(fd.Recv.List) > 0 && len(fd.Recv.List[0].Names) > 0 {
 			c.rename[fd.Recv.List[0].Names[0].Name] = "recv"
 		}
@@ -720,6 +967,9 @@ func translateMiniGo(repo string) string {
 				return true
 			}
 			if _, isSel := as.Rhs[0].(*ast.SelectorExpr); isSel {
+				if r := rootIdent(as.Rhs[0]); r != nil && c.opaque[r.Name] {
+					return true
+				}
 				if p := c.path(as.Rhs[0]); p != "" && !c.atomics[lastField(p)] {
 					c.alias[id.Name] = p
 				}
@@ -730,44 +980,58 @@ func translateMiniGo(repo string) string {
 			fmt.Fprintf(&out, "def %s : Stmt :=\n  %s\n\n", w.lean, c.block(fd.Body.List))
 			continue
 		}
-		// closure: statements before the function literal (init) and its body
+		// closure: statements before the function literal (init) and its body; "a/b" descends into nested literals
+		list := fd.Body.List
 		var init []ast.Stmt
 		var lit *ast.FuncLit
-		for _, st := range fd.Body.List {
-			if as, ok := st.(*ast.AssignStmt); ok && len(as.Lhs) == 1 && len(as.Rhs) == 1 {
-				if id, ok := as.Lhs[0].(*ast.Ident); ok && id.Name == w.closure {
-					if fl, ok := as.Rhs[0].(*ast.FuncLit); ok {
+		cc := c
+		prefixes := []string{"carg", "darg", "earg"}
+		steps := strings.Split(w.closure, "/")
+		for depth, step := range steps {
+			init, lit = nil, nil
+			for _, st := range list {
+				if as, ok := st.(*ast.AssignStmt); ok && len(as.Lhs) == 1 && len(as.Rhs) == 1 {
+					if id, ok := as.Lhs[0].(*ast.Ident); ok && id.Name == step {
+						if fl, ok := as.Rhs[0].(*ast.FuncLit); ok {
+							lit = fl
+							break
+						}
+					}
+				}
+				if rs, ok := st.(*ast.ReturnStmt); ok && step == "return" && len(rs.Results) == 1 {
+					if fl, ok := rs.Results[0].(*ast.FuncLit); ok {
 						lit = fl
 						break
 					}
 				}
+				init = append(init, st)
 			}
-			if rs, ok := st.(*ast.ReturnStmt); ok && w.closure == "return" && len(rs.Results) == 1 {
-				if fl, ok := rs.Results[0].(*ast.FuncLit); ok {
-					lit = fl
-					break
+			if lit == nil {
+				break
+			}
+			if depth == len(steps)-1 {
+				fmt.Fprintf(&out, "def %s_init : Stmt :=\n  %s\n\n", w.lean, cc.block(init))
+			}
+			c2 := &mgCtx{fset: c.fset, atomics: c.atomics, rename: map[string]string{}, alias: c.alias, opaque: c.opaque, loopN: c.loopN, body: c.body}
+			for k, v := range cc.rename {
+				c2.rename[k] = v
+			}
+			m := 0
+			for _, p := range lit.Type.Params.List {
+				for _, nm := range p.Names {
+					c2.rename[nm.Name] = prefixes[depth%len(prefixes)] + strconv.Itoa(m)
+					m++
 				}
 			}
-			init = append(init, st)
+			cc = c2
+			list = lit.Body.List
 		}
 		if lit == nil {
 			fmt.Fprintf(&out, "def %s_init : Stmt := .unsupported %s\n\ndef %s_body : Stmt := .unsupported %s\n\n",
 				w.lean, leanStr("closure not found"), w.lean, leanStr("closure not found"))
 			continue
 		}
-		fmt.Fprintf(&out, "def %s_init : Stmt :=\n  %s\n\n", w.lean, c.block(init))
-		c2 := &mgCtx{fset: c.fset, atomics: c.atomics, rename: map[string]string{}, alias: c.alias}
-		for k, v := range c.rename {
-			c2.rename[k] = v
-		}
-		m := 0
-		for _, p := range lit.Type.Params.List {
-			for _, nm := range p.Names {
-				c2.rename[nm.Name] = "carg" + strconv.Itoa(m)
-				m++
-			}
-		}
-		fmt.Fprintf(&out, "def %s_body : Stmt :=\n  %s\n\n", w.lean, c2.block(lit.Body.List))
+		fmt.Fprintf(&out, "def %s_body : Stmt :=\n  %s\n\n", w.lean, cc.block(lit.Body.List))
 	}
 	out.WriteString("end F1.Generated.MG\n")
 	return out.String()
